@@ -1,4 +1,5 @@
 """Nodule that contains utilities for grounding PDDL+ actions."""
+from collections import Counter
 from typing import Dict, List, Set
 
 from anytree import AnyNode
@@ -28,19 +29,32 @@ def _iterate_calc_tree_and_ground(
             lifted_function: PDDLFunction = calc_node.value
             lifted_function_params = [param for param in lifted_function.signature]
             grounded_signature = {}
+            grounded_objects = []
             for index, parameter_name in enumerate(lifted_function_params):
                 if parameter_name in domain.constants:
+                    grounded_objects.append(parameter_name)
                     grounded_signature[parameter_name] = lifted_function.signature[
                         parameter_name
                     ]
 
                 else:
+                    grounded_objects.append(
+                        parameters_map[lifted_function_params[index]]
+                    )
                     grounded_signature[
                         parameters_map[lifted_function_params[index]]
                     ] = lifted_function.signature[parameter_name]
 
+            # the same bookkeeping of repeated objects that the problem parser keeps.
+            repeating_objects = {
+                object_name: count
+                for object_name, count in Counter(grounded_objects).items()
+                if count > 1
+            }
             grounded_function = PDDLFunction(
-                name=lifted_function.name, signature=grounded_signature
+                name=lifted_function.name,
+                signature=grounded_signature,
+                repeating_variables=repeating_objects,
             )
             return AnyNode(id=str(grounded_function), value=grounded_function)
 
